@@ -57,6 +57,7 @@ type Engine struct {
 	unknownCalls map[string]bool
 	goSites      map[string][]*ssa.Go
 	forms        []rawForm
+	rebound      map[string]string
 	declared     map[string]bool
 }
 
@@ -326,6 +327,12 @@ func (x *Exec) entryState(cut *ssa.BasicBlock) *State {
 	}
 	for _, fv := range fn.FreeVars {
 		st.env[fv] = st.named(fv.Type(), "fv:"+fv.Name())
+	}
+	// captured variables are addresses of cells: never nil
+	for _, fv := range fn.FreeVars {
+		if v := st.env[fv]; v.K == VRef {
+			st.assume("(not (= " + v.T + " 0))")
+		}
 	}
 	// pointer receivers are assumed non-nil (listed assumption); call sites carry the obligation
 	if fn.Signature.Recv() != nil && len(fn.Params) > 0 {
